@@ -79,7 +79,7 @@ Theorem C13_reply_auth_roundtrip : forall mac reverse fetch_key ntp_handle c q o
   server_auth mac fetch_key c q = AuthOk k o -> rx_l4 q = Udp s (s_local_port c) n p ->
   server_step mac reverse fetch_key ntp_handle c q oob = Send ToLastHop t ->
   let h := rx_hdr q in
-  let cc := mkCcfg (Some k) (h_src_ia h) (h_src_raw h) (h_dst_ia h) (h_dst_raw h) in
+  let cc := mkCcfg (Some k) (h_src_ia h) (h_src_raw h) (h_dst_ia h) (h_dst_raw h) true in
   forall nok, exists o',
     carries spi_server (deliver t nok) o' /\
     opt_mac o' = mac k (macin_rx o' (deliver t nok)) /\
@@ -266,6 +266,7 @@ Print Assumptions C13_srv_oracle_holds_on_model.
    for the service never carries the server's authenticator) holds for the
    model on all inputs.  No hypothesis on the MAC function or the packet. *)
 Theorem C13_srv_nokey_oracle_holds_on_model : forall mac reverse fetch_key ntp_handle socks sender k nok c q oob,
+  s_fetcher c = true -> wf_layers q ->
   fetch_key (keyreq_of q) = None ->
   C13_srv_nokey_ok (s_local_port c) (s_conn_port c) socks sender q
     (reverse (h_path_type (rx_hdr q), h_path (rx_hdr q)))
@@ -310,6 +311,42 @@ Theorem C13_svc_spao_oracle_holds_on_model : forall modes nrefs npeers,
 Proof. exact svc_spao_on_model. Qed.
 Print Assumptions C13_svc_spao_oracle_holds_on_model.
 
+(* "Carries a packet authenticator for the time-service DRKey (expected SPI and algorithm) whose
+   MAC does not verify": an authenticator whose data does not have 28 bytes (a MAC of 0, 15, 17 ..
+   bytes) cannot verify, nor can any authenticator when the listener cannot obtain the key.  Such a
+   request for the service is dropped (both were served like unauthenticated requests before the
+   repairs of the length test and of the key-fetch error branch). *)
+Theorem C13_wrong_length_never_served : forall mac reverse fetch_key ntp_handle c q oob o s n p,
+  s_fetcher c = true -> claims spi_client q o -> zlen (o_data o) <> auth_opt_data_len ->
+  rx_l4 q = Udp s (s_local_port c) n p ->
+  exists why, server_step mac reverse fetch_key ntp_handle c q oob = Drop why.
+Proof. exact wrong_length_dropped. Qed.
+Print Assumptions C13_wrong_length_never_served.
+
+Theorem C13_no_key_never_served : forall mac reverse fetch_key ntp_handle c q oob o s n p,
+  s_fetcher c = true -> carries spi_client q o -> fetch_key (keyreq_of q) = None ->
+  rx_l4 q = Udp s (s_local_port c) n p ->
+  exists why, server_step mac reverse fetch_key ntp_handle c q oob = Drop why.
+Proof. exact no_key_dropped. Qed.
+Print Assumptions C13_no_key_never_served.
+
+Theorem C13_srv_maclen_oracle_holds_on_model : forall mac reverse fetch_key ntp_handle socks sender k nok c q oob,
+  wf_layers q ->
+  C13_srv_maclen_ok (s_fetcher c) (s_local_port c) q
+    (srv_obs mac socks sender k nok (server_step mac reverse fetch_key ntp_handle c q oob)) = true.
+Proof. exact srv_maclen_oracle_on_model. Qed.
+Print Assumptions C13_srv_maclen_oracle_holds_on_model.
+
+(* The client with authentication enabled that could not obtain the key never computes an offset
+   from a response that carries the server's authenticator (it cannot verify it): for every list
+   of delivered datagrams. *)
+Theorem C13_cli_nokey_oracle_holds_on_model : forall mac c rs macs,
+  c_key c = None -> c_auth c = true -> length macs = length rs ->
+  Forall (fun r => wf_layers (fst r)) rs ->
+  C13_cli_nokey_ok true false (combine (map fst rs) macs) (accepted_of (client_run mac c false 0 rs)) = true.
+Proof. exact cli_nokey_on_model. Qed.
+Print Assumptions C13_cli_nokey_oracle_holds_on_model.
+
 (* ---- the hypotheses are satisfiable: a concrete authenticated exchange ---- *)
 (* a 16-byte checksum of the encoded MAC input: enough for the example *)
 Definition ex_mac (k : bytes) (m : macin) : bytes := (fold_left Z.add (ideal_mac k m) 0 mod 256) :: repeat 0 15.
@@ -317,7 +354,7 @@ Definition ex_rev (p : Z * bytes) : option (Z * bytes) := Some p.
 Definition ex_key (_ : keyreq) : option bytes := Some (repeat 0 16).
 Definition ex_ntp (_ : bytes) : bytes := repeat 36 48.
 Definition ex_hdr : hdr := mkHdr 1 2 0 0 [10;0;0;1] [10;0;0;2] 0 [] 0 7 E2E_CLASS.
-Definition ex_cc : ccfg := mkCcfg (Some (repeat 0 16)) 2 [10;0;0;2] 1 [10;0;0;1].
+Definition ex_cc : ccfg := mkCcfg (Some (repeat 0 16)) 2 [10;0;0;2] 1 [10;0;0;1] true.
 Definition ex_req : rx := deliver (client_request ex_mac ex_cc ex_hdr 40000 10123 (repeat 35 48)) true.
 Definition ex_scfg : scfg := mkScfg 10123 10123 10 true.
 
@@ -405,7 +442,7 @@ Theorem C13_fail_closed_refuted_on_model :
      [(ex_plain_reply, recomputed_mac ex_mac (repeat 0 16) ex_plain_reply)] (Some 0%nat) = true /\
    C13_cli_strict_ok true true true [(ex_plain_reply, recomputed_mac ex_mac (repeat 0 16) ex_plain_reply)] (Some 0%nat) = false) /\
   (* authentication asked for, no key *)
-  (client_run ex_mac (mkCcfg None 2 [10;0;0;2] 1 [10;0;0;1]) false 0 [(ex_plain_reply, 0)] = CAccept 0 false /\
+  (client_run ex_mac (mkCcfg None 2 [10;0;0;2] 1 [10;0;0;1] true) false 0 [(ex_plain_reply, 0)] = CAccept 0 false /\
    C13_cli_strict_ok true false true [(ex_plain_reply, [])] (Some 0%nat) = false).
 Proof. repeat split; vm_compute; reflexivity. Qed.
 Print Assumptions C13_fail_closed_refuted_on_model.
